@@ -61,14 +61,84 @@ type vfGNode struct {
 	orig map[string][]string
 	viol map[string]any
 	ev   *vfEvTracer
+	// maximum RPC size when the history runs with a small one (0 otherwise): consecutive RPCs to one peer that could not have
+	// travelled together are the fragments of one oversized RPC and are read as one (what the fragments carry and how big
+	// they are is C11's business; the number of RPCs stays the real one)
+	maxRPC int
 }
 
+// vfUnsplit joins the fragments of split RPCs again: a greedy split leaves fragments of which no two neighbours fit one RPC.
+func (n *vfGNode) vfUnsplit(rs []*RPC) []*RPC {
+	if n.maxRPC == 0 {
+		return rs
+	}
+	var out []*RPC
+	last := 0
+	for _, r := range rs {
+		if len(out) == 0 || last+r.Size() <= n.maxRPC {
+			cp := &RPC{}
+			cp.Publish = append(cp.Publish, r.Publish...)
+			if r.Control != nil {
+				c := *r.Control
+				cp.Control = &c
+			}
+			out = append(out, cp)
+			last = r.Size()
+			continue
+		}
+		last = r.Size()
+		g := out[len(out)-1]
+		g.Publish = append(g.Publish, r.Publish...)
+		if r.Control == nil {
+			continue
+		}
+		if g.Control == nil {
+			g.Control = &pb.ControlMessage{}
+		}
+		c := g.Control
+		for _, h := range r.Control.Ihave {
+			merged := false
+			for k, x := range c.Ihave {
+				if x.GetTopicID() == h.GetTopicID() {
+					tid := x.GetTopicID()
+					c.Ihave = append(append([]*pb.ControlIHave{}, c.Ihave[:k]...), append([]*pb.ControlIHave{{TopicID: &tid, MessageIDs: append(append([]string{}, x.MessageIDs...), h.MessageIDs...)}}, c.Ihave[k+1:]...)...)
+					merged = true
+					break
+				}
+			}
+			if !merged {
+				c.Ihave = append(append([]*pb.ControlIHave{}, c.Ihave...), h)
+			}
+		}
+		c.Iwant = append(append([]*pb.ControlIWant{}, c.Iwant...), r.Control.Iwant...)
+		if len(r.Control.Idontwant) > 0 {
+			var ids []string
+			for _, w := range c.Idontwant {
+				ids = append(ids, w.MessageIDs...)
+			}
+			for _, w := range r.Control.Idontwant {
+				ids = append(ids, w.MessageIDs...)
+			}
+			c.Idontwant = []*pb.ControlIDontWant{{MessageIDs: ids}}
+		}
+		c.Graft = append(append([]*pb.ControlGraft{}, c.Graft...), r.Control.Graft...)
+		c.Prune = append(append([]*pb.ControlPrune{}, c.Prune...), r.Control.Prune...)
+	}
+	return out
+}
+
+// message ids on the wire: decimal, optionally zero-padded to 40 digits (ids that are long and share a long prefix);
+// Coq and strconv read both forms as the same number
+var vfIDWidth = 0
+
+func vfWireID(id int) string { return fmt.Sprintf("%0*d", vfIDWidth, id) }
+
 func (n *vfGNode) mkData(id, size int) []byte {
-	s := fmt.Sprintf("%d:", id)
+	s := vfWireID(id) + ":"
 	for len(s) < size {
 		s += "x"
 	}
-	n.csum[computeChecksum(strconv.Itoa(id))] = id
+	n.csum[computeChecksum(vfWireID(id))] = id
 	return []byte(s)
 }
 
@@ -140,7 +210,7 @@ func (n *vfGNode) traceLits(evs []*pb.TraceEvent) []string {
 func (n *vfGNode) outputs(rpcs map[int][]*RPC) []string {
 	var out []string
 	for i, rs := range rpcs {
-		for _, r := range rs {
+		for _, r := range n.vfUnsplit(rs) {
 			for _, m := range r.Publish {
 				out = append(out, fmt.Sprintf("OMsg %d %s", i, vfMsgID(m)))
 				b, _ := m.Marshal()
@@ -248,6 +318,11 @@ func vfDrainSub(sub *Subscription) {
 }
 
 func vfGossipHistory(t *testing.T, rng *rand.Rand, nops int, style int) (lit string, rec map[string]any, nontrivial bool) {
+	vfIDWidth = []int{0, 40}[rng.Intn(2)]
+	defer func() { vfIDWidth = 0 }()
+	if rng.Intn(2) == 0 {
+		defer vfSetThresholds(rng)() // gossip / publish / graylist thresholds other than -2 / -3 / -5, equal ones included
+	}
 	synctest.Test(t, func(t *testing.T) {
 		ctx, cancel := context.WithCancel(context.Background())
 		defer cancel()
@@ -259,6 +334,7 @@ func vfGossipHistory(t *testing.T, rng *rand.Rand, nops int, style int) (lit str
 			MaxIHaveMsgs: 2 + rng.Intn(3), Retrans: 1 + rng.Intn(3), MaxIDWMsgs: 2 + rng.Intn(2), MaxIDWLen: 3 + rng.Intn(4), IDWTTL: 2 + rng.Intn(2), IDWThr: 20, Flood: rng.Intn(3) == 0}
 		G.HistGossip = 1 + rng.Intn(G.HistLen)
 		np := 7 + rng.Intn(7)
+		smallMax := vfIDWidth == 40 && rng.Intn(2) == 0
 		gp := func(ps *PubSub) error {
 			gs := ps.rt.(*GossipSubRouter)
 			gs.params.HistoryLength, gs.params.HistoryGossip, gs.params.Dlazy = G.HistLen, G.HistGossip, G.Dlazy
@@ -268,6 +344,10 @@ func vfGossipHistory(t *testing.T, rng *rand.Rand, nops int, style int) (lit str
 			gs.params.IWantFollowupTime = 3 * time.Second
 			gs.mcache = NewMessageCache(G.HistGossip, G.HistLen)
 			gs.floodPublish = G.Flood
+			if smallMax {
+				// every single element still fits, but three messages or five long ids in one RPC do not: sendRPC has to split
+				ps.maxMessageSize = 200
+			}
 			return nil
 		}
 		ev := &vfEvTracer{}
@@ -286,10 +366,21 @@ func vfGossipHistory(t *testing.T, rng *rand.Rand, nops int, style int) (lit str
 			}
 			ev.tees = []EventTracer{jt, pt}
 		}
-		rn := vfNewRouterNode(t, ctx, P, np, gp, WithSeenMessagesTTL(1000000*time.Hour), WithMessageIdFn(vfMsgID), WithEventTracer(ev))
+		gopts := []Option{gp, WithSeenMessagesTTL(1000000 * time.Hour), WithMessageIdFn(vfMsgID), WithEventTracer(ev)}
+		noAuthor := rng.Intn(3) == 0
+		if noAuthor {
+			gopts = append(gopts, WithNoAuthor()) // the node's own publications carry no author: they are still its own (flood publishing)
+		}
+		rn := vfNewRouterNode(t, ctx, P, np, gopts...)
 		rn.gs.mcache.SetMsgIdFn(func(m *Message) string { return vfMsgID(m.Message) })
 		n := &vfGNode{vfRNode: rn, G: G, topics: map[int]*Topic{}, subs: map[int]*Subscription{}, csum: map[checksum]int{}, nextMid: 100, orig: map[string][]string{}, ev: ev}
+		if smallMax {
+			n.maxRPC = 200
+		}
 		ntopics := 2
+		if style == 3 {
+			ntopics = 1
+		}
 		connected := map[int]protocol.ID{}
 		joined := map[int]bool{}
 		cached := []int{}         // ids we have published / forwarded
@@ -352,12 +443,24 @@ func vfGossipHistory(t *testing.T, rng *rand.Rand, nops int, style int) (lit str
 			return l
 		}
 		msgLit := func(id, tp, size int, from string, author string) string {
+			if m := len(vfWireID(id)) + 1; size < m {
+				size = m // mkData never produces less than the id and its separator
+			}
 			return fmt.Sprintf("{| m_id := %d; m_topic := %d; m_size := %d; m_from := %s; m_author := %s |}", id, tp, size, from, author)
 		}
+		var forcedOps []int
+		scripted := false
+		forcedPeer := -1 // the peer every scripted operation is about (-1: random)
+		pickP := func() int {
+			if forcedPeer >= 0 && scripted {
+				return forcedPeer
+			}
+			return rng.Intn(np)
+		}
 		for i := 0; i < nops; i++ {
-			if rng.Intn(4) == 0 {
+			if rng.Intn(4) == 0 && len(forcedOps) == 0 {
 				for k := 0; k < 1+rng.Intn(3); k++ {
-					n.scores[rng.Intn(np)] = []int{-6, -4, -3, -2, -1, 0, 0, 0, 1, 2, 3}[rng.Intn(11)]
+					n.scores[rng.Intn(np)] = []int{vfGraylistThr - 1, vfGraylistThr, vfPublishThr - 1, vfPublishThr, vfGossipThr - 1, vfGossipThr, -1, 0, 0, 0, 1, 2, 3}[rng.Intn(13)]
 				}
 			}
 			sc := n.scoreLit()
@@ -380,9 +483,59 @@ func vfGossipHistory(t *testing.T, rng *rand.Rand, nops int, style int) (lit str
 				}
 			}
 			r := rng.Intn(100)
+			// style 3: half way through, a message is published, every peer leaves, more quiet heartbeats than the gossip window
+			// pass, D+2 peers arrive and a heartbeat follows: nothing that old may be advertised any more
+			if style == 3 && i == nops/2 {
+				if !joined[0] {
+					forcedOps = append(forcedOps, 22)
+				}
+				forcedOps = append(forcedOps, 40, 1000)
+				for k := 0; k < G.HistGossip+1; k++ {
+					forcedOps = append(forcedOps, 90)
+				}
+				for k := 0; k < P.D+2; k++ {
+					forcedOps = append(forcedOps, 0)
+				}
+				forcedOps = append(forcedOps, 90)
+			}
+			// style 4: half way through, one peer spends its IHAVE and IDONTWANT allowances of this heartbeat, leaves, comes back
+			// and goes on advertising before any heartbeat has passed: the allowances belong to the heartbeat, not to the stream
+			if style == 4 && i == nops/2 {
+				forcedPeer = rng.Intn(np)
+				if _, ok := connected[forcedPeer]; !ok {
+					forcedOps = append(forcedOps, 0)
+				}
+				for k := 0; k < G.MaxIHaveMsgs+1; k++ {
+					forcedOps = append(forcedOps, 60)
+				}
+				for k := 0; k < G.MaxIDWMsgs+1; k++ {
+					forcedOps = append(forcedOps, 80)
+				}
+				forcedOps = append(forcedOps, 15, 0, 60, 60, 80, 80)
+			}
+			isForced := len(forcedOps) > 0
+			scripted = isForced
+			if isForced {
+				r = forcedOps[0]
+				forcedOps = forcedOps[1:]
+				nops++ // the scripted operations come on top
+			}
+			if r == 1000 {
+				var ps []int
+				for p := range connected {
+					ps = append(ps, p)
+				}
+				sort.Ints(ps)
+				for _, p := range ps {
+					n.removePeer(p)
+					delete(connected, p)
+					emit(fmt.Sprintf("GCore (ODisconnect %d)", p), sc)
+				}
+				continue
+			}
 			switch {
-			case r < 14 || len(connected) < 4:
-				p := rng.Intn(np)
+			case r < 14 || (!isForced && len(connected) < 4):
+				p := pickP()
 				if _, ok := connected[p]; ok {
 					continue
 				}
@@ -400,7 +553,7 @@ func vfGossipHistory(t *testing.T, rng *rand.Rand, nops int, style int) (lit str
 					}
 				}
 			case r < 17:
-				p := rng.Intn(np)
+				p := pickP()
 				if _, ok := connected[p]; !ok {
 					continue
 				}
@@ -512,9 +665,9 @@ func vfGossipHistory(t *testing.T, rng *rand.Rand, nops int, style int) (lit str
 				synctest.Wait()
 				vfEval(n.ps, func() {
 					// the message as the node accepted it (what it keeps for IWANT) is the reference for its copies
-					if m, ok := n.gs.mcache.msgs[strconv.Itoa(id)]; ok {
+					if m, ok := n.gs.mcache.msgs[vfWireID(id)]; ok {
 						b, _ := m.Message.Marshal()
-						n.orig[strconv.Itoa(id)] = append(n.orig[strconv.Itoa(id)], string(b))
+						n.orig[vfWireID(id)] = append(n.orig[vfWireID(id)], string(b))
 					}
 				})
 				chosen := []int{}
@@ -549,7 +702,7 @@ func vfGossipHistory(t *testing.T, rng *rand.Rand, nops int, style int) (lit str
 					ts := vfTopic(tp)
 					m := &pb.Message{Data: n.mkData(id, size), Topic: &ts}
 					author := "None"
-					if rng.Intn(3) == 0 {
+					if rng.Intn(3) == 0 && !noAuthor { // (an anonymous node rejects messages that name an author)
 						a := rng.Intn(np)
 						m.From = []byte(n.pids[a])
 						author = fmt.Sprintf("(Some %d)", a)
@@ -571,7 +724,7 @@ func vfGossipHistory(t *testing.T, rng *rand.Rand, nops int, style int) (lit str
 				}
 				emit(fmt.Sprintf("GRecvMsgs %d [%s] []", p, strings.Join(lits, "; ")), sc)
 			case r < 68: // IHAVE
-				p := rng.Intn(np)
+				p := pickP()
 				if _, ok := connected[p]; !ok {
 					continue
 				}
@@ -588,9 +741,9 @@ func vfGossipHistory(t *testing.T, rng *rand.Rand, nops int, style int) (lit str
 						if rng.Intn(4) == 0 && len(cached) > 0 {
 							id = cached[rng.Intn(len(cached))] // something we have already seen
 						}
-						n.csum[computeChecksum(strconv.Itoa(id))] = id
-						ids = append(ids, strconv.Itoa(id))
-						idl = append(idl, strconv.Itoa(id))
+						n.csum[computeChecksum(vfWireID(id))] = id
+						ids = append(ids, vfWireID(id))
+						idl = append(idl, vfWireID(id))
 						advertised[p] = append(advertised[p], id)
 					}
 					ihs = append(ihs, &pb.ControlIHave{TopicID: &ts, MessageIDs: ids})
@@ -651,12 +804,12 @@ func vfGossipHistory(t *testing.T, rng *rand.Rand, nops int, style int) (lit str
 					if rng.Intn(6) == 0 {
 						id = 4000 + rng.Intn(5) // unknown
 					}
-					ids = append(ids, strconv.Itoa(id))
+					ids = append(ids, vfWireID(id))
 				}
 				n.recv(p, &pb.RPC{Control: &pb.ControlMessage{Iwant: []*pb.ControlIWant{{MessageIDs: ids}}}})
 				emit(fmt.Sprintf("GRecvIWant %d [%s]", p, strings.Join(ids, "; ")), sc)
 			case r < 82: // IDONTWANT
-				p := rng.Intn(np)
+				p := pickP()
 				if _, ok := connected[p]; !ok {
 					continue
 				}
@@ -669,8 +822,8 @@ func vfGossipHistory(t *testing.T, rng *rand.Rand, nops int, style int) (lit str
 						if rng.Intn(2) == 0 && len(cached) > 0 {
 							id = cached[rng.Intn(len(cached))]
 						}
-						n.csum[computeChecksum(strconv.Itoa(id))] = id
-						ids = append(ids, strconv.Itoa(id))
+						n.csum[computeChecksum(vfWireID(id))] = id
+						ids = append(ids, vfWireID(id))
 					}
 					idws = append(idws, &pb.ControlIDontWant{MessageIDs: ids})
 					lits = append(lits, "["+strings.Join(ids, "; ")+"]")
@@ -731,7 +884,7 @@ func vfGossipHistory(t *testing.T, rng *rand.Rand, nops int, style int) (lit str
 				_, rpcs := n.drain()
 				gob := map[string][]string{}
 				for i, rs := range rpcs {
-					for _, rr := range rs {
+					for _, rr := range n.vfUnsplit(rs) {
 						if rr.Control == nil {
 							continue
 						}
@@ -856,6 +1009,12 @@ func TestVF_Gossip(t *testing.T) {
 		if c%5 == 1 {
 			style = 2 // GRAFT bursts (mesh filled up to Dhi, further GRAFTs refused)
 		}
+		if c%10 == 7 {
+			style = 3 // every peer leaves, quiet heartbeats, new peers
+		}
+		if c%10 == 3 {
+			style = 4 // a peer spends its per-heartbeat allowances, reconnects and goes on inside the same heartbeat
+		}
 		lit, rec, nt := vfGossipHistory(t, rng, 40+rng.Intn(60), style)
 		cs.add(lit, rec, nt)
 		if n, ok := rec["trace_files_compared"]; ok {
@@ -882,6 +1041,6 @@ func TestVF_Gossip(t *testing.T) {
 	cs.extra["copies_compared_bytewise"] = true
 	cs.extra["histories_with_json_and_pb_trace_files_compared"] = nFiles
 	cs.extra["trace_file_events_compared"] = nFileEvents
-	cs.flush("random gossip-level router histories on a real gossipsub node with a parked heartbeat: the router alphabet (peers of every protocol version, subscriptions, Subscribe/Cancel through the API, direct peers, remote GRAFT/PRUNE, virtual time) plus local publishes to joined and non-joined topics (fanout), messages from peers with and without an author, duplicates, IHAVE (seen and unseen ids, over-long lists), IWANT (repeated, unknown ids), IDONTWANT, heartbeats; integer scores crossing the graylist / publish / gossip thresholds and zero; with and without flood publishing; after EVERY operation every RPC queued for every fake peer, the penalty deltas and a snapshot of mesh / fanout / backoff / unwanted / message-cache contents are compared with the model. " +
+	cs.flush("random gossip-level router histories on a real gossipsub node with a parked heartbeat: the router alphabet (peers of every protocol version, subscriptions, Subscribe/Cancel through the API, direct peers, remote GRAFT/PRUNE, virtual time) plus local publishes to joined and non-joined topics (fanout), messages from peers with and without an author, duplicates, IHAVE (seen and unseen ids, over-long lists), IWANT (repeated, unknown ids), IDONTWANT, heartbeats (also while the node has no peer at all); integer scores crossing the graylist / publish / gossip thresholds and zero; with and without flood publishing; after EVERY operation every RPC queued for every fake peer, the penalty deltas and a snapshot of mesh / fanout / backoff / unwanted / message-cache contents are compared with the model. " +
 		"non-trivial = at least one IHAVE emitted and one message copy sent; distinct = hash of the history")
 }
